@@ -92,7 +92,10 @@ def generate(repo):
     if [k for k, _ in curves] != list(E._ECDSA_CURVES.get_key_format_identifier_list()):
         raise RuntimeError("ECDSA curve identifier list differs from the curve set")
     esrc = inspect.getsource(E.verify_ssh_sig)
-    _need(esrc, "if msg.get_text() != self.ecdsa_curve.key_format_identifier:", "ECDSAKey.verify_ssh_sig")
+    # either the direct comparison, or (after the C35 repair) the name read under try/except first
+    if "if msg.get_text() != self.ecdsa_curve.key_format_identifier:" not in esrc:
+        _need(esrc, "sig_algorithm = msg.get_text()", "ECDSAKey.verify_ssh_sig")
+        _need(esrc, "if sig_algorithm != self.ecdsa_curve.key_format_identifier:", "ECDSAKey.verify_ssh_sig")
     _need(esrc, "ec.ECDSA(self.ecdsa_curve.hash_object())", "ECDSAKey.verify_ssh_sig")
     _need(inspect.getsource(E.__init__), 'suffix = "%s"' % CERT, "ECDSAKey.__init__")
     _need(inspect.getsource(E.__init__), '"{}%s".format(x) for x in key_types' % CERT, "ECDSAKey.__init__")
@@ -102,7 +105,10 @@ def generate(repo):
     _need(inspect.getsource(R.__init__), 'cert_type="%s%s",' % (R.name, CERT), "RSAKey.__init__")
     _need(inspect.getsource(D.__init__), "key_type=self.name,", "Ed25519Key.__init__")
     _need(inspect.getsource(D.__init__), 'cert_type="%s%s",' % (D.name, CERT), "Ed25519Key.__init__")
-    _need(inspect.getsource(D.verify_ssh_sig), "if msg.get_text() != self.name:", "Ed25519Key.verify_ssh_sig")
+    dsrc = inspect.getsource(D.verify_ssh_sig)
+    if "if msg.get_text() != self.name:" not in dsrc:
+        _need(dsrc, "sig_algorithm = msg.get_text()", "Ed25519Key.verify_ssh_sig")
+        _need(dsrc, "if sig_algorithm != self.name:", "Ed25519Key.verify_ssh_sig")
 
     # ---- the cert suffix literal in the anchored functions -------------------
     _need(inspect.getsource(T.preferred_keys.fget), '"{}%s".format(x) for x in filtered' % CERT,
